@@ -18,6 +18,16 @@ CLAIMS = {
   text="Proof: Roll's mode contract (no draw in min/max mode, returns 1 / sides); RollCommon: pick*lo <= total <= pick*hi with lo==hi (attained) in min/max mode, for all keep/drop/min/max modifiers; RollFate -4/+4/in between; RollCoC 1..100; WoD/DC never explode in min mode; no generator use in min/max mode (heap equality on the stream position).",
   note="Known finding (reported, not an alarm): min mode is not a lower bound for CoC penalty dice. Lifting the per-term brackets through + and *c of the VM (OpAdd/OpMultiply) is not yet under contract.",
   ref="DESIGN.md §3 C15"),
+ "C06": dict(
+  text="Proof (partial): (a) effect obligations decided over the typed call graph for every function reachable from the exported API or used as a function value: no process-global random generator, clock only in debug printing, no order-sensitive iteration over Go maps; every Roll* call site passes <ctx>.RandSrc (or the accessor ctxRandSrc, itself under contract); sub-VM constructors copy the parent's source; (b) SMT-discharged contracts: Roll/_roll64 draw only from the source they are given (quantified frame on the stream-position heap), no draw in min/max mode, the fallback to the shared source is taken only when src == nil, randSource is non-nil and never reassigned.",
+  note="Equality of two whole runs is argued from function-level determinism, not proved relationally. Known finding: dict iteration order (Go map) reaches printing and keys/values/items. Init/GetCurSeed inverse pair rests on the assumed MarshalBinary/UnmarshalBinary contract of rand.PCGSource and is not yet an obligation.",
+  ref="DESIGN.md §3 C06"),
+ "C11": dict(
+  cat="other",
+  text="Necessary condition only: for every function reachable from the exported API (including functions used as values and parser actions) the frame pass proves that it assigns no package-level variable, reads only package-level variables that are never assigned after initialisation, uses no process-global generator and no generator object shared through a package-level pointer. The family cannot reason about schedules; a realistic regression (a package-level cache, a mutated operator table, a shared generator) fails a named per-function obligation.",
+  note="Not covered: data races through heap shared by aliasing, and every statement about interleavings. Known findings: the parse-error language global and the shared unseeded generator (both confirmed with go test -race).",
+  ref="DESIGN.md §3 C11",
+  tech="contract-based frame/effect obligations (writes-global, reads-immutable-global, no-shared-generator) discharged by dsvc's syntactic pass over the typed call graph"),
 }
 
 props = [json.loads(l)["id"] for l in open("/verif/properties.jsonl")]
